@@ -40,7 +40,7 @@ class Contract:
                  returns=None, loops=None, params=None, max_paths=4000, pure_spec=None,
                  no_return=False, props=(), ghost_asserts=None, notes="", assumed=False,
                  locals=None, ghost_modifies=(), decreases=None, loop_all=None, closure=None,
-                 waive=(), havoc_stmts=(), dyn_call_ghost=None):
+                 waive=(), havoc_stmts=(), dyn_call_ghost=None, ghost_calls=()):
         self.target = target
         self.requires = list(requires)
         self.ensures = list(ensures)
@@ -65,6 +65,7 @@ class Contract:
         self.waive = list(waive)         # obligation texts explicitly left unverified (reported)
         self.havoc_stmts = list(havoc_stmts)   # statements (normalised source) replaced by havoc
         self.dyn_call_ghost = dyn_call_ghost   # (ghost name, predicate name) counted per user call
+        self.ghost_calls = list(ghost_calls)   # ghost counters of calls to this function
 
 
 class Seq:
@@ -160,7 +161,7 @@ class World:
                     obj = getattr(obj, p)
         except (AttributeError, KeyError):
             obj = None
-        if node is not None and not isinstance(node, ast.FunctionDef):
+        if node is not None and not isinstance(node, (ast.FunctionDef, ast.AsyncFunctionDef)):
             node = None
         ref = FnRef(key, node, vars(mod), cls, obj, getattr(mod, "__file__", None))
         self.fnrefs[key] = ref
@@ -601,8 +602,8 @@ class World:
             if isinstance(v, VFunc) and v.builtin == "callback":
                 out.add(v.recv.obj[1])
             for q, con in self.contracts.items():
-                if q.endswith("." + name) and con.ghost_modifies:
-                    out |= set(con.ghost_modifies)
+                if q.endswith("." + name) and (con.ghost_modifies or con.ghost_calls):
+                    out |= set(con.ghost_modifies) | set(con.ghost_calls)
         return out
 
     def mutated_lists(self, it, calls):
